@@ -7,14 +7,14 @@ from .rustsrc import File
 VERIF = os.path.dirname(os.path.dirname(os.path.abspath(__file__)))
 PINS = {
  'operator.rs': {
-   'InfixOpManager::new': ['C08'], 'InfixOpManager::register': ['C08'],
-   'PrefixOpManager::new': ['C08'], 'PrefixOpManager::register': ['C08'],
-   'PostfixOpManager::new': ['C08'], 'PostfixOpManager::register': ['C08'],
+   'InfixOpManager::new': ['C01', 'C08'], 'InfixOpManager::register': ['C01', 'C08'],
+   'PrefixOpManager::new': ['C01', 'C08'], 'PrefixOpManager::register': ['C01', 'C08'],
+   'PostfixOpManager::new': ['C01', 'C08'], 'PostfixOpManager::register': ['C01', 'C08'],
  },
- 'function.rs': {'InnerFunctionManager::new': ['C08'], 'InnerFunctionManager::register': ['C08']},
- 'context.rs': {'macro:create_context': ['C06', 'C08'], 'Context::new': ['C06'], 'Context::set': ['C06', 'C08']},
- 'init.rs': {'init': ['C08']},
- 'descriptor.rs': {'DescriptorManager::new': ['C18'], 'DescriptorManager::set': ['C18']},
+ 'function.rs': {'InnerFunctionManager::new': ['C01', 'C08'], 'InnerFunctionManager::register': ['C01', 'C08']},
+ 'context.rs': {'macro:create_context': ['C06', 'C08'], 'Context::new': ['C06'], 'Context::set': ['C01', 'C06', 'C08']},
+ 'init.rs': {'init': ['C01', 'C08']},
+ 'descriptor.rs': {'DescriptorManager::new': ['C01', 'C18'], 'DescriptorManager::set': ['C18']},
 }
 def fingerprint(f, key):
     if key.startswith('macro:'):
